@@ -431,10 +431,20 @@ fn main() {
         let mut c = Case { dbd: dbd.clone(), body, star, unq: r.chance(1, 4), outer: Core { from: From::Table(3), where_: None, group: None, select: vec![], distinct: false, order_by: vec![], limit: None, offset: 0 }, with_cols: star.is_none() && r.chance(1, 3) };
         let db2 = with_v(&c);
         let mut outer_from = From::Table(3);
+        // (view columns' offset in the join row, their count) when the view is on the null-supplying
+        // side of an outer join and the WHERE clause is to be a non-null-rejecting test on them
+        let mut null_side_probe: Option<(usize, usize)> = None;
         if r.chance(1, 3) {
             // the view joined with a base table (either side, every join type)
-            let t = r.below(3) as usize;
-            let (lw, l, rr) = if r.chance(1, 2) { (db2.tables[t].schema.cols.len(), From::Table(t), From::Table(3)) } else { (db2.tables[3].schema.cols.len(), From::Table(3), From::Table(t)) };
+            let mut t = r.below(3) as usize;
+            let probe = r.chance(1, 2);
+            if probe && c.star == Some(t) {
+                // a wildcard view keeps the base column names: join it with ANOTHER table so that
+                // unqualified references stay unambiguous
+                t = (t + 1) % 3;
+            }
+            let view_left = r.chance(1, 2);
+            let (lw, l, rr) = if !view_left { (db2.tables[t].schema.cols.len(), From::Table(t), From::Table(3)) } else { (db2.tables[3].schema.cols.len(), From::Table(3), From::Table(t)) };
             let cross = From::Cross(Box::new(l.clone()), Box::new(rr.clone()));
             let tys = cross.tys(&db2);
             let li: Vec<usize> = (0..lw).filter(|i| tys[*i] == Ty::Int).collect();
@@ -444,7 +454,15 @@ fn main() {
             } else {
                 E::Bin(Op::Eq, Box::new(E::Lit(Lit::I(1))), Box::new(E::Lit(Lit::I(1))))
             };
-            outer_from = match r.below(5) {
+            let vw = db2.tables[3].schema.cols.len();
+            let kind = if probe {
+                // the view on the null-supplying side: LEFT with the view on the right, RIGHT with
+                // the view on the left, or FULL
+                if r.chance(1, 4) { 4 } else if view_left { 3 } else { 2 }
+            } else {
+                r.below(5)
+            };
+            outer_from = match kind {
                 0 => cross,
                 1 => From::Inner(Box::new(l), Box::new(rr), on),
                 2 => From::Left(Box::new(l), Box::new(rr), on),
@@ -456,13 +474,43 @@ fn main() {
                 // a wildcard view keeps the base column names: unqualified references would be ambiguous
                 c.unq = false;
             }
+            if probe {
+                null_side_probe = Some((if view_left { 0 } else { lw }, vw));
+                // unqualified names 3 times in 4 (WHERE conjuncts over unqualified names are the ones
+                // the planner pushes into a view / CTE scan)
+                c.unq = r.chance(3, 4);
+                rep.count("outer_join_view_on_null_supplying_side");
+            }
         }
         if large {
             outer_from = From::Table(3);
+            null_side_probe = None;
             c.unq = r.chance(3, 4);
         }
         let og = QGen { db: &db2, subqueries: false, force_from: Some(outer_from) };
         c.outer = og.gen_core(&mut r, true);
+        if let Some((off, vw)) = null_side_probe {
+            // WHERE = a test on the view's own columns that NULL-extended rows pass (not null-rejecting):
+            // filtering the view before the join instead of after it changes the result
+            let tys = c.outer.from.tys(&db2);
+            let ints: Vec<usize> = (off..off + vw).filter(|i| tys[*i] == Ty::Int).collect();
+            let col = if !ints.is_empty() && r.chance(3, 4) { *r.pick(&ints) } else { off + r.below(vw as u64) as usize };
+            let k = Lit::I(r.range(-2, 3));
+            let is_null = E::IsNull(Box::new(E::Col(col)), false);
+            let e = if tys[col] == Ty::Int {
+                match r.below(4) {
+                    0 => is_null,
+                    1 => E::Bin(Op::Eq, Box::new(E::Coalesce(Box::new(E::Col(col)), Box::new(E::Lit(k.clone())))), Box::new(E::Lit(k))),
+                    2 => E::Bin(Op::Or, Box::new(is_null), Box::new(E::Bin(Op::Gt, Box::new(E::Col(col)), Box::new(E::Lit(k))))),
+                    _ => E::Not(Box::new(E::IsNull(Box::new(E::Col(col)), true))),
+                }
+            } else if r.chance(1, 2) {
+                is_null
+            } else {
+                E::Not(Box::new(E::IsNull(Box::new(E::Col(col)), true)))
+            };
+            c.outer.where_ = Some(Pred::Ex(e));
+        }
         if large && r.chance(if c.dbd.tables.iter().any(|t| t.rows.len() >= 1000) { 1 } else { 2 }, 3) {
             if let From::Table(t) = c.body.from {
                 let probe = TableDef { schema: db2.tables[3].schema.clone(), rows: c.dbd.tables[t].rows.clone() };
